@@ -280,8 +280,42 @@ func maxAbsDiff(got []float64, want []float64) float64 {
 	return m
 }
 
+// c06Sensitivity estimates how strongly the recurrence amplifies rounding-level perturbations:
+// the largest change of any output when every input value and weight is perturbed by one float32
+// ulp (relative 2^-23, alternating sign). A long sequence through gates that are not contractions
+// (tanh/relu as gate activation, a large hidden state) can amplify by many orders of magnitude;
+// the comparison tolerance has to grow with it or the oracle would flag legitimate float32 rounding.
+func c06Sensitivity(c rnnCase, inputForget bool, Y, Yh, Yc []float64) float64 {
+	p := c
+	perturb := func(v []float32) []float32 {
+		if v == nil {
+			return nil
+		}
+		out := make([]float32, len(v))
+		for i, x := range v {
+			f := float32(1 + 1.0/8388608)
+			if i%2 == 1 {
+				f = float32(1 - 1.0/8388608)
+			}
+			out[i] = x * f
+		}
+		return out
+	}
+	p.X, p.W, p.R, p.Bias, p.H0, p.C0, p.P = perturb(c.X), perturb(c.W), perturb(c.R), perturb(c.Bias), perturb(c.H0), perturb(c.C0), perturb(c.P)
+	Y2, Yh2, Yc2, ok := refRecurrent(p, inputForget)
+	if !ok {
+		return 0
+	}
+	d := math.Max(maxAbsDiff(Y2, Y), math.Max(maxAbsDiff(Yh2, Yh), maxAbsDiff(Yc2, Yc)))
+	if math.IsNaN(d) {
+		return math.Inf(1)
+	}
+	return d
+}
+
 // c06Compare: do the outputs match the reference triple?
 func c06Compare(c rnnCase, outs []tensor.Tensor, Y, Yh, Yc []float64) string {
+	sens := c06Sensitivity(c, c.inputForget == 1, Y, Yh, Yc)
 	want := [][]float64{Y, Yh, Yc}
 	shapes := [][]int{{c.S, 1, c.B, c.H}, {1, c.B, c.H}, {1, c.B, c.H}}
 	names := []string{"Y", "Y_h", "Y_c"}
@@ -315,8 +349,12 @@ func c06Compare(c rnnCase, outs []tensor.Tensor, Y, Yh, Yc []float64) string {
 			ev.Class("C06", "diverging-recurrence-values-not-compared")
 			continue
 		}
-		if d := maxAbsDiff(f64s(outs[i]), want[i]); d > c06Tol*mag {
-			return fmt.Sprintf("%s differs from the ONNX recurrence by %g (tolerance %g)", names[i], d, c06Tol*mag)
+		tol := c06Tol*mag + 2000*sens
+		if sens > 1e-5 {
+			ev.Class("C06", "ill-conditioned-recurrence-wide-tolerance")
+		}
+		if d := maxAbsDiff(f64s(outs[i]), want[i]); d > tol {
+			return fmt.Sprintf("%s differs from the ONNX recurrence by %g (tolerance %g, rounding sensitivity %g)", names[i], d, tol, sens)
 		}
 	}
 	return ""
@@ -399,11 +437,16 @@ func c06Split(c rnnCase, whole []tensor.Tensor, k int) string {
 	if !(mag <= 1e4) {
 		return "" // diverging recurrence, see c06Compare
 	}
-	if d := maxAbsDiff(y, f64s(whole[0])); d > 1e-6*mag {
+	Yr, Yhr, Ycr, ok := refRecurrent(c, c.inputForget == 1)
+	splitTol := 1e-6 * mag
+	if ok {
+		splitTol += 2000 * c06Sensitivity(c, c.inputForget == 1, Yr, Yhr, Ycr)
+	}
+	if d := maxAbsDiff(y, f64s(whole[0])); d > splitTol {
 		return fmt.Sprintf("split at %d: concatenated Y differs from the whole-sequence Y by %g", k, d)
 	}
 	for i := 1; i < len(whole); i++ {
-		if d := maxAbsDiff(f64s(r2.outs[i]), f64s(whole[i])); d > 1e-6*mag {
+		if d := maxAbsDiff(f64s(r2.outs[i]), f64s(whole[i])); d > splitTol {
 			return fmt.Sprintf("split at %d: final state %d differs from the whole-sequence one by %g", k, i, d)
 		}
 	}
